@@ -266,19 +266,24 @@ class GeminiServerProtocol(asyncio.Protocol):
         if self.request_start_time:
             duration_ms = (time.time() - self.request_start_time) * 1000
 
-        # Log the request
-        logger.info(
-            "request_completed",
-            client_ip=self.peer_name[0] if self.peer_name else "unknown",
-            status=response.status,
-            path=response.url or "unknown",
-            # (a body that is not text or bytes is turned into a 40 below; the log
-            # line must not fail on it first)
-            body_size=len(response.body)
-            if isinstance(response.body, (str, bytes))
-            else 0,
-            duration_ms=round(duration_ms, 2),
-        )
+        # Log the request (a log line that cannot be written - log disk full, a stream
+        # that cannot encode the request line - must not change what the client is
+        # told: the request has been handled, an upload may already be stored)
+        try:
+            logger.info(
+                "request_completed",
+                client_ip=self.peer_name[0] if self.peer_name else "unknown",
+                status=response.status,
+                path=response.url or "unknown",
+                # (a body that is not text or bytes is turned into a 40 below; the log
+                # line must not fail on it first)
+                body_size=len(response.body)
+                if isinstance(response.body, (str, bytes))
+                else 0,
+                duration_ms=round(duration_ms, 2),
+            )
+        except Exception:  # noqa: BLE001
+            pass
 
         # Encode the whole response before writing anything, so that a response
         # that cannot be sent never leaves a half-written one on the wire
